@@ -166,5 +166,58 @@ def rule_dt(repo):
     return res
 
 
+def rule_jr(repo):
+    res = RuleResult('C05.JR', 'so3 Jr: the closed form dividing by the rotation angle is selected only where the angle exceeds eps '
+                     '(identity elsewhere); SO3 Jr is Jr of Log(X)', floor=3)
+    out = [res]
+    g0 = repo.func(LT, 'so3Type.Jr')
+    for ret in returns_of(g0.node):
+        v = inline_straight(g0.node, upto=ret).value(ret.value)
+        guards = masks.guard_atoms([v])
+        cds = masks.context_defects(v, guards)
+        res.inst({'function': g0.fq, 'guards': len(guards), 'defects': len(cds)}, (g0.fq, ret.lineno))
+        for kind, node, msg, root, ctx in cds:
+            res.add(Finding('C05.JR', g0, msg, construct='%s %s' % (kind, msg[:100])))
+    f = repo.func(LT, 'SO3Type.Jr')
+    rets = returns_of(f.node)
+    ok = len(rets) == 1 and src(rets[0].value).replace(' ', '') == 'X.Log().Jr()'
+    res.inst({'function': f.fq, 'delegates_to_Log_Jr': ok}, f.fq)
+    if not ok:
+        res.add(Finding('C05.JR', f, 'SO3Type.Jr must be the so3 Jr of Log(X)', construct='SO3 Jr'))
+    # the fallback branch of the where is the identity
+    g = repo.func(LT, 'so3Type.Jr')
+    rv = returned_calls(g)
+    okw = False
+    for r, v in rv:
+        if isinstance(v, ast.Call) and dotted(v.func) == 'torch.where' and len(v.args) == 3:
+            other = v.args[2]
+            okw = any(isinstance(n, ast.Call) and dotted(n.func) == 'torch.eye' for n in ast.walk(other)) and \
+                not any(isinstance(n, ast.BinOp) and isinstance(n.op, ast.Div) for n in ast.walk(other))
+    res.inst({'function': g.fq, 'identity_fallback': okw}, g.fq + 'I')
+    if not okw:
+        res.add(Finding('C05.JR', g, 'so3 Jr no longer falls back to the identity matrix where the angle is below eps', construct='Jr fallback'))
+    return out
+
+
+def rule_adj(repo):
+    from .c04 import orthogonal_families, skew_families
+    res = RuleResult('C05.ADJ', 'adjoint builders have the block structure their Lie group dictates: Adj orthogonal (SO3_Adj blocks on the '
+                     'diagonal of an identity) and ad skew exactly for SO3 and RxSO3', floor=8)
+    orth, skew = orthogonal_families(repo), skew_families(repo)
+    for fam in GROUPS:
+        want = fam in ('SO3', 'RxSO3')
+        f = repo.func(OP, fam + '_Adj')
+        res.inst({'function': f.fq, 'orthogonal_structure': orth[fam], 'expected': want}, f.fq)
+        if orth[fam] != want:
+            res.add(Finding('C05.ADJ', f, '%s_Adj %s the block structure of an orthogonal adjoint, Adj(%s) %s orthogonal' % (
+                fam, 'has' if orth[fam] else 'no longer has', fam, 'is' if want else 'is not'), construct='%s_Adj structure' % fam))
+        g = repo.func(OP, ALG[fam] + '_adj')
+        res.inst({'function': g.fq, 'skew_structure': skew[fam], 'expected': want}, g.fq)
+        if skew[fam] != want:
+            res.add(Finding('C05.ADJ', g, '%s_adj %s the block structure of a skew-symmetric ad' % (ALG[fam], 'has' if skew[fam] else 'no longer has'),
+                            construct='%s_adj structure' % ALG[fam]))
+    return res
+
+
 def rules(repo, tier):
-    return [rule_fwd(repo), rule_retr_add(repo), rule_jinv(repo), rule_clone(repo), rule_dt(repo)]
+    return [rule_fwd(repo), rule_retr_add(repo), rule_jinv(repo), rule_clone(repo), rule_dt(repo), rule_adj(repo)] + rule_jr(repo)
